@@ -79,6 +79,29 @@ def _impl(tier, seed, search):
             if ok:
                 L.check(f'class-{nm_}:type', type(r) is Quaternion, dict(a=ua_, b=ub_), f'{nm_} must be a plain Quaternion, got {type(r).__name__}', sig=f'class-addsub:type')
                 L.close(f'class-{nm_}', r.vec, want_, 1e-9, max(1.0, float(np.max(np.abs(want_)))), dict(a=ua_, b=ub_), what=f'{nm_} is not the element-wise result', sig='class-addsub:value')
+        # methods on multi-valued objects act value by value
+        if i % 4 == 0:
+            vals_ = [a / sa, c / sc, d / sd]
+            Qm = Quaternion(vals_); Um = UnitQuaternion([inputs.unitq(g) for _ in range(3)])
+            for nm_, fm_, fs_ in (('conj', lambda Z: Z.conj(), lambda z: z.conj()), ('norm', lambda Z: Z.norm(), lambda z: z.norm()), ('**2', lambda Z: Z ** 2, lambda z: z ** 2),
+                                  ('**-1', lambda Z: Z ** -1, lambda z: z ** -1), ('unit', lambda Z: Z.unit(), lambda z: z.unit()), ('matrix', None, None)):
+                if fm_ is None: continue
+                for Obj, tag in ((Qm, 'Q'), (Um, 'UQ')):
+                    def both():
+                        rm = fm_(Obj); rs = [fs_(Obj[k_]) for k_ in range(3)]
+                        gm = [np.asarray(x_, float) for x_ in (rm.data if hasattr(rm, 'A') else list(np.ravel(rm)))]
+                        gs = [np.asarray(x_.data[0] if hasattr(x_, 'A') else x_, float) for x_ in rs]
+                        return gm, gs
+                    ok, r = L.noraise(f'multi:{tag}.{nm_}', both, dict(method=nm_), f'{tag}.{nm_} on a 3-valued object')
+                    if ok:
+                        L.check(f'multi:{tag}.{nm_}:len', len(r[0]) == 3, dict(method=nm_), f'{nm_} on a 3-valued object does not give 3 results', sig=f'multi:{nm_}')
+                        if len(r[0]) == 3:
+                            for gm_, gs_ in zip(*r): L.close(f'multi:{tag}.{nm_}', gm_, gs_, 1e-12, max(1.0, float(np.max(np.abs(gs_)))), dict(method=nm_),
+                                                             what=f'{nm_} on a multi-valued quaternion differs from the single-valued result', sig=f'multi:{nm_}')
+            # conj reverses the product and q conj(q) = |q|^2, per value, through the class
+            ok, r = L.noraise('multi:conj-laws', lambda: ((Qm * Qm.conj()).data, [np.r_[np.dot(v_, v_), 0, 0, 0] for v_ in vals_]), {}, 'q * conj(q) on a multi-valued object')
+            if ok:
+                for g_, w_ in zip(*r): L.close('multi:q-conj-q', np.asarray(g_, float), w_, 1e-9, 1.0, {}, sig='multi:conj')
         # 3-vector form: unit quaternions with scalar part >= 0.1
         ua, ub = inputs.unitq(g), inputs.unitq(g)
         if ua[0] < 0: ua = -ua
@@ -114,7 +137,7 @@ def _impl(tier, seed, search):
             ok, r = L.noraise('udq-product', udq_prod, dict(X=Xa.A, Y=Xb.A), 'UnitDualQuaternion * UnitDualQuaternion')
             if ok:
                 L.close('udq-matrix', r[0], r[1], 1e-9, 8.0, dict(X=Xa.A, Y=Xb.A), what='(A*B).vec differs from A.matrix() @ B.vec for unit dual quaternions', sig='udq-product')
-                L.close('udq-SE3', r[2], r[3], 1e-9, max(1.0, float(np.max(np.abs(r[3])))), dict(X=Xa.A, Y=Xb.A), what='(UDQ(X)*UDQ(Y)).SE3() differs from X*Y', sig='udq-product')
+                L.close('udq-SE3', r[2], r[3], 1e-6, max(1.0, float(np.max(np.abs(r[3])))), dict(X=Xa.A, Y=Xb.A), what='(UDQ(X)*UDQ(Y)).SE3() differs from X*Y', sig='udq-product')
                 sgn = 1.0 if np.dot(r[4], r[5]) >= 0 else -1.0
                 L.close('udq-assoc', r[4], sgn * r[5], 1e-9, 30.0, dict(X=Xa.A, Y=Xb.A), sig='udq-product')
             T = inputs.se3(g, 3)
